@@ -1,5 +1,6 @@
 import NetaddrVerif.Model.Proto
 import NetaddrVerif.Model.Network
+import NetaddrVerif.Model.NetworkSet
 namespace NV.Driver.C02
 open NV NV.Proto
 
@@ -30,6 +31,18 @@ def runSets (n : Net) : List SetOp → List String
       | some e => showSetErr e ++ "~" ++ showNet n'
     s :: runSets n' ops
 
+/-- the same history run through the statement-by-statement setter bodies (`SetTrace`): the
+    object printed after a raise is the state the body had reached, nothing is rolled back; the
+    number of stores each step made is printed too -/
+def runSetsT (n : Net) : List SetOp → List String
+  | [] => []
+  | op :: ops =>
+    let (r, st) := SetTrace.setterTrace n op
+    let s := match r with
+      | .ok _ => showNet st.obj
+      | .error e => showSetErr e ++ "~" ++ showNet st.obj
+    (s ++ "#" ++ toString st.log.length) :: runSetsT st.obj ops
+
 def handle (op : String) (args : List String) : Option String :=
   match op, args with
   | "net_attrs", [ver, v, p] => do
@@ -38,11 +51,15 @@ def handle (op : String) (args : List String) : Option String :=
     let c := netCidr ⟨ver, v, p⟩
     pure (" ".intercalate [toString (netHostmask w p), toString (netNetmask w p), toString (netNetwork w v p),
       toString (netFirst w v p), toString (netLast w v p), toString (netSize w v p),
-      showOptNat (netBroadcast ver w v p), toString v, showNet c])
+      showOptNat (netBroadcast ver w v p), toString (Network.netIp ⟨ver, v, p⟩).val, showNet c])
   | "net_sets", [ver, v, p, ops] => do
     let n : Net := ⟨← ver.toNat?, ← v.toNat?, ← p.toNat?⟩
     let ops ← (← parseList ops).mapM parseSetOp
     pure (";".intercalate (runSets n ops))
+  | "net_sets_trace", [ver, v, p, ops] => do
+    let n : Net := ⟨← ver.toNat?, ← v.toNat?, ← p.toNat?⟩
+    let ops ← (← parseList ops).mapM parseSetOp
+    pure (";".intercalate (runSetsT n ops))
   | "mask_pred", [ver, v] => do
     let ver ← ver.toNat?; let v ← v.toNat?
     let w := width ver
